@@ -276,9 +276,9 @@ def _node_dict(E, kind):
         E.assume(S.in_const_set(typ, [n for n in block_type_names() if n != "metadata"]))
         return E.odict(pycls=CaseInsensitiveOrderedDict, ci=True, factory=CaseInsensitiveOrderedDict,
                        entries=[("__type__", typ), ("__comments__", E.odict(pycls=OrderedDict, entries=[("name", Seg("c"))])), ("name", E.str("n"))])
-    if kind == "keyvalue":
+    if kind in ("keyvalue", "metadata"):
         return E.odict(pycls=CaseInsensitiveOrderedDict, ci=True, factory=CaseInsensitiveOrderedDict,
-                       entries=[("a", E.str("va")), ("__type__", "validation")])
+                       entries=[("a", E.str("va")), ("__type__", "validation" if kind == "keyvalue" else "metadata")])
     raise ValueError(kind)
 
 
@@ -316,7 +316,7 @@ class SaveAttrComments(Contract):
 @register
 class SaveCompositeComments(Contract):
     target = "mappyfile.transformer.CommentsTransformer._save_composite_comments"
-    cases = ["composite:some", "composite:none", "keyvalue:some", "keyvalue:none"]
+    cases = ["composite:some", "composite:none", "keyvalue:some", "keyvalue:none", "metadata:some", "metadata:none"]
     props = ("C14", "C13")
 
     def build(self, E, case):
@@ -340,10 +340,35 @@ class SaveCompositeComments(Contract):
         cd = d["__comments__"]
         tc = cd.get("__type__") if isinstance(cd, MDict) else None
         # `if comments:` — the comments list may be empty: both outcomes are explored
+        is_nodes = isinstance(tc, list) and len(tc) == 1 and isinstance(tc[0], Seg) and tc[0].key[1] is tree.meta.comments
         if tc is not None:
-            yield "block-comments-are-the-node's", isinstance(tc, list) and len(tc) == 1 and isinstance(tc[0], Seg) and tc[0].key[1] is tree.meta.comments
+            yield "block-comments-are-the-node's", is_nodes
+        if mk != "nometa":
+            tested = [b for seg, b in E.ctx.ghost.get("$nonempty", []) if seg.key[0] == "comments-of-node"]
+            if tested:
+                yield "block-comments-stored-under-__type__-whenever-there-are-any", len(tested) == 1 and S.ite(tested[0], is_nodes, tc is None or is_nodes)
+            else:
+                yield "block-comments-stored-under-__type__", is_nodes
         if kind == "composite":
             yield "hoisted-keyword-comments-kept", cd.get("name") is not None
+        calls = [n_ for n_ in E.ctx.notes if isinstance(n_, tuple) and n_ and n_[0] == "metadata-comments-call"]
+        if kind == "metadata":
+            yield "comments-of-the-pairs-collected", len(calls) == 1 and calls[0][1] is d and calls[0][2] is tree.children[0].children
+        else:
+            yield "pair-comments-only-for-METADATA", not calls
+
+
+@register
+class AddMetadataComments(Contract):
+    """assumed at call sites (its body - a scan of the METADATA string_pair trees - is exercised by the comments seam only):
+    it is handed the node's dictionary and the METADATA subtree's children, and returns the dictionary"""
+    target = "mappyfile.transformer.CommentsTransformer.add_metadata_comments"
+    cases = []
+    props = ("C14",)
+
+    def at_call(self, E, ct, d, metadata):
+        E.ctx.notes.append(("metadata-comments-call", d, metadata))
+        return d
 
 
 @register
@@ -365,9 +390,16 @@ class SaveProjectionComments(Contract):
         yield "data-untouched", _data_unchanged(d, E.__dict__["before"])
         if case == "nometa":
             yield "nothing-added", "__comments__" not in d
-        elif "__comments__" in d:
-            c = d["__comments__"]
-            yield "the-node's-comments", isinstance(c, list) and len(c) == 1 and isinstance(c[0], Seg) and c[0].key[1] is tree.meta.comments
+        else:
+            c = d["__comments__"] if "__comments__" in d else None
+            is_nodes = isinstance(c, list) and len(c) == 1 and isinstance(c[0], Seg) and c[0].key[1] is tree.meta.comments
+            if c is not None:
+                yield "the-node's-comments", is_nodes
+            tested = [b for seg, b in E.ctx.ghost.get("$nonempty", []) if seg.key[0] == "comments-of-node"]
+            if tested:
+                yield "comments-stored-whenever-there-are-any", len(tested) == 1 and S.ite(tested[0], is_nodes, c is None or is_nodes)
+            else:
+                yield "comments-stored", is_nodes
 
 
 # ---------------------------------------------------------------------------------------------
